@@ -838,7 +838,7 @@ def run_shard(shard, tier):
                     oc = check_to68_value(C, v, bad)
                     case = {'leg': 'enc', 'value': v.hex()}
                     if store or f < 2:
-                        res.case(('enc', sgn, e, f), nontrivial=v != 0, outcome=oc, sample=case if (e, f, sgn) == (7, 1 << 29, -1.0) else None)
+                        res.case(('enc', sgn, e, f), nontrivial=v != 0, outcome=oc)
                     else:
                         res.evaluations += 1
                         res.nontrivial_overflow += 1 if v != 0 else 0
